@@ -118,6 +118,8 @@ type c15Writer struct {
 	got    []byte
 	writes int
 	closes int
+	sticky bool  // (JSON / XML / YAML calls of a history) once a step has failed, every later Write fails too, accepting nothing
+	failed error
 }
 
 func c15NewWriter(steps []c15WStep, pre string) *c15Writer {
@@ -128,6 +130,9 @@ func c15NewWriter(steps []c15WStep, pre string) *c15Writer {
 
 func (w *c15Writer) Write(p []byte) (int, error) {
 	w.writes++
+	if w.sticky && w.failed != nil {
+		return 0, w.failed
+	}
 	if len(w.steps) == 0 {
 		w.got = append(w.got, p...)
 		return len(p), nil
@@ -139,7 +144,8 @@ func (w *c15Writer) Write(p []byte) (int, error) {
 		n = len(p)
 	}
 	w.got = append(w.got, p[:n]...)
-	return n, c15Err(st.E)
+	w.failed = c15Err(st.E)
+	return n, w.failed
 }
 
 type c15WriteCloser struct{ w *c15Writer }
@@ -243,6 +249,14 @@ type c15In struct {
 	Num      string     `json:"num,omitempty"`   // rt/slots: the number literal
 	NumSrc   string     `json:"num_src,omitempty"` // rt/slots: how the source holds it: number (json.Number) | int (int64/uint64) | float (float64)
 	Script   string     `json:"script,omitempty"` // label of the script shape (for the distribution report)
+	Root     string      `json:"root,omitempty"`     // rt/names: name of the root element (XML)
+	Fields   []c15NField `json:"fields,omitempty"`   // rt/names: the fields of the document, names and texts drawn from the pools
+	Tree     *c15XNodeIn `json:"tree,omitempty"`     // rt/xtree: a generic XML element tree
+	Calls    []c15In     `json:"calls,omitempty"`    // hist: the calls made through ONE producer value and ONE consumer value
+	DocKind  string      `json:"doc_kind,omitempty"` // hist, json/xml/yaml call: doc (struct) | map
+	ErrAt    int         `json:"err_at,omitempty"`   // hist, json/xml/yaml consume call: 0 healthy reader, k > 0 the reader fails inside the document
+	ErrNo    int         `json:"err_no,omitempty"`   // ... with this scripted error
+	Trail    Bs          `json:"trail,omitempty"`    // hist, json/xml consume call: what follows the document on the stream (one Decode leaves it alone)
 }
 
 type c15Obs struct {
@@ -265,6 +279,15 @@ type c15Obs struct {
 	Want     []string `json:"want,omitempty"`   // rt/slots: leaves of the value given to the producer
 	GotL     []string `json:"got_leaves,omitempty"` // rt/slots: leaves of the value the consumer rebuilt
 	Wire     Bs       `json:"wire,omitempty"`   // rt/slots: what the producer wrote
+	Imm      []c15Obs `json:"imm,omitempty"`    // hist: every call as observed right after it returned
+	Fin      []c15Obs `json:"fin,omitempty"`    // hist: the same calls, destinations and sinks re-read after the last call
+	Full     Bs       `json:"full,omitempty"`   // hist doc call: what a fresh producer writes for the value into an accepting sink
+	FErr     string   `json:"fresh_err,omitempty"`    // hist doc call: error class of the same call on a fresh codec value
+	FGot     Bs       `json:"fresh_got,omitempty"`    // hist doc produce: sink content of the same call on a fresh producer
+	FLeaves  []string `json:"fresh_leaves,omitempty"` // hist doc consume: leaves of the destination of the same call on a fresh consumer
+	Back     []string `json:"back,omitempty"`   // hist doc produce: leaves of what a fresh consumer rebuilds from the bytes this call added
+	WFail    bool     `json:"wfail,omitempty"`  // hist doc produce: the writer script fails
+	RFail    bool     `json:"rfail,omitempty"`  // hist doc consume: the reader script fails inside the document
 }
 
 type c15 struct{}
@@ -649,9 +672,15 @@ func (c15) Run(inAny any) any {
 		c15RunProduce(in, &obs)
 	case "discard":
 		c15RunDiscard(in, &obs)
+	case "hist":
+		c15RunHist(in, &obs)
 	case "rt":
 		if in.Shape == "slots" {
 			obs.Panicked, obs.Panic = recoverTo(func() { c15RunSlots(in, &obs) })
+			break
+		}
+		if in.Shape == "names" || in.Shape == "xtree" {
+			obs.Panicked, obs.Panic = recoverTo(func() { c15RunNames(in, &obs) })
 			break
 		}
 		obs.Panicked, obs.Panic = recoverTo(func() { obs.OK, obs.Detail = c15RoundTrip(in) })
@@ -661,20 +690,37 @@ func (c15) Run(inAny any) any {
 	return obs
 }
 
-func c15RunConsume(in c15In, obs *c15Obs) {
-	var cons runtime.Consumer
+func c15StreamConsumer(in c15In) runtime.Consumer {
 	switch in.Codec {
 	case "bytestream":
 		if in.CloseOpt {
-			cons = runtime.ByteStreamConsumer(runtime.ClosesStream)
-		} else {
-			cons = runtime.ByteStreamConsumer()
+			return runtime.ByteStreamConsumer(runtime.ClosesStream)
 		}
+		return runtime.ByteStreamConsumer()
 	case "text":
-		cons = runtime.TextConsumer()
-	default:
-		panic("consume: codec " + in.Codec)
+		return runtime.TextConsumer()
 	}
+	panic("consume: codec " + in.Codec)
+}
+
+func c15StreamProducer(in c15In) runtime.Producer {
+	switch in.Codec {
+	case "bytestream":
+		if in.CloseOpt {
+			return runtime.ByteStreamProducer(runtime.ClosesStream)
+		}
+		return runtime.ByteStreamProducer()
+	case "text":
+		return runtime.TextProducer()
+	}
+	panic("produce: codec " + in.Codec)
+}
+
+func c15RunConsume(in c15In, obs *c15Obs) { c15ConsumeWith(c15StreamConsumer(in), in, obs) }
+
+// c15ConsumeWith makes one Consume call through the given consumer value; the function it returns re-reads
+// the destination and the counters into another observable later on.
+func c15ConsumeWith(cons runtime.Consumer, in c15In, obs *c15Obs) func(*c15Obs) {
 	var rd io.Reader
 	var sr *c15Reader
 	if !in.NilStrm {
@@ -692,27 +738,20 @@ func c15RunConsume(in c15In, obs *c15Obs) {
 	if err != nil {
 		obs.ErrText = err.Error()
 	}
-	has, st := dest.stored()
-	obs.HasSt, obs.Stored = has, Bs(st)
-	if sr != nil {
-		obs.Closes, obs.Reads = sr.closes, sr.reads
+	reread := func(o *c15Obs) {
+		has, st := dest.stored()
+		o.HasSt, o.Stored = has, Bs(st)
+		if sr != nil {
+			o.Closes, o.Reads = sr.closes, sr.reads
+		}
 	}
+	reread(obs)
+	return reread
 }
 
-func c15RunProduce(in c15In, obs *c15Obs) {
-	var prod runtime.Producer
-	switch in.Codec {
-	case "bytestream":
-		if in.CloseOpt {
-			prod = runtime.ByteStreamProducer(runtime.ClosesStream)
-		} else {
-			prod = runtime.ByteStreamProducer()
-		}
-	case "text":
-		prod = runtime.TextProducer()
-	default:
-		panic("produce: codec " + in.Codec)
-	}
+func c15RunProduce(in c15In, obs *c15Obs) { c15ProduceWith(c15StreamProducer(in), in, obs) }
+
+func c15ProduceWith(prod runtime.Producer, in c15In, obs *c15Obs) func(*c15Obs) {
 	var wr io.Writer
 	var sw *c15Writer
 	if !in.NilStrm {
@@ -743,10 +782,14 @@ func c15RunProduce(in c15In, obs *c15Obs) {
 	if err != nil {
 		obs.ErrText = err.Error()
 	}
-	if sw != nil {
-		obs.Got, obs.Closes, obs.Writes = Bs(sw.got), sw.closes, sw.writes
+	reread := func(o *c15Obs) {
+		if sw != nil {
+			o.Got, o.Closes, o.Writes = Bs(sw.got), sw.closes, sw.writes
+		}
+		o.PCloses = src.pcloses()
 	}
-	obs.PCloses = src.pcloses()
+	reread(obs)
+	return reread
 }
 
 func c15RunDiscard(in c15In, obs *c15Obs) {
@@ -1428,34 +1471,47 @@ func c15CoqErr(cls string) string {
 	return "(Some " + cls + ")"
 }
 
+func c15CoqConsume(in c15In, obs c15Obs) string {
+	rd := "None"
+	if !in.NilStrm {
+		rd = fmt.Sprintf("(Some (%s, %s))", c15CoqSteps(in.Steps), coqBool(in.Closable))
+	}
+	return fmt.Sprintf("CConsume %s %s %s %s %s %s %s %s", c15CoqCodec(in.Codec), coqBool(in.CloseOpt), rd, c15CoqDest(in),
+		coqBool(obs.Panicked), c15CoqErr(obs.Err), coqOpt(obs.HasSt, coqBytes(string(obs.Stored))), c15Nat(obs.Closes))
+}
+
+func c15CoqProduce(in c15In, obs c15Obs) string {
+	wr := "None"
+	if !in.NilStrm {
+		wr = fmt.Sprintf("(Some (%s, %s))", c15CoqWState(in.WSteps, string(in.WPre)), coqBool(in.Closable))
+	}
+	jerr := "None"
+	if obs.JErr != "" {
+		jerr = "(Some (EOther 7))"
+	}
+	return fmt.Sprintf("CProduce %s %s %s %s (%s, %s) %s %s %s %s %s", c15CoqCodec(in.Codec), coqBool(in.CloseOpt), wr, c15CoqSrc(in),
+		coqBytes(string(obs.JOut)), jerr,
+		coqBool(obs.Panicked), c15CoqErr(obs.Err), coqBytes(string(obs.Got)), c15Nat(obs.Closes), c15Nat(obs.PCloses))
+}
+
 func (c15) Coq(inAny any, obsAny any) string {
 	in, obs := inAny.(c15In), obsAny.(c15Obs)
 	switch in.Kind {
 	case "consume":
-		rd := "None"
-		if !in.NilStrm {
-			rd = fmt.Sprintf("(Some (%s, %s))", c15CoqSteps(in.Steps), coqBool(in.Closable))
-		}
-		return fmt.Sprintf("CConsume %s %s %s %s %s %s %s %s", c15CoqCodec(in.Codec), coqBool(in.CloseOpt), rd, c15CoqDest(in),
-			coqBool(obs.Panicked), c15CoqErr(obs.Err), coqOpt(obs.HasSt, coqBytes(string(obs.Stored))), c15Nat(obs.Closes))
+		return c15CoqConsume(in, obs)
 	case "produce":
-		wr := "None"
-		if !in.NilStrm {
-			wr = fmt.Sprintf("(Some (%s, %s))", c15CoqWState(in.WSteps, string(in.WPre)), coqBool(in.Closable))
-		}
-		jerr := "None"
-		if obs.JErr != "" {
-			jerr = "(Some (EOther 7))"
-		}
-		return fmt.Sprintf("CProduce %s %s %s %s (%s, %s) %s %s %s %s %s", c15CoqCodec(in.Codec), coqBool(in.CloseOpt), wr, c15CoqSrc(in),
-			coqBytes(string(obs.JOut)), jerr,
-			coqBool(obs.Panicked), c15CoqErr(obs.Err), coqBytes(string(obs.Got)), c15Nat(obs.Closes), c15Nat(obs.PCloses))
+		return c15CoqProduce(in, obs)
 	case "discard":
 		return fmt.Sprintf("CDiscard %s %s %s %s %s", coqBool(obs.Panicked), c15CoqErr(obs.Err), c15Nat(obs.Reads), c15Nat(obs.Writes), c15Nat(obs.Closes))
+	case "hist":
+		return c15CoqHist(in, obs)
 	case "rt":
 		f := map[string]int{"json": 0, "xml": 1, "yaml": 2}[in.Codec]
 		if in.Shape == "slots" {
 			return fmt.Sprintf("CNumSlots %d %s %s %s %s", f, coqBool(obs.Panicked), coqBool(obs.Failed), coqBytesList(obs.Want), coqBytesList(obs.GotL))
+		}
+		if in.Shape == "names" || in.Shape == "xtree" {
+			return fmt.Sprintf("CDocLeaves %d %s %s %s %s", f, coqBool(obs.Panicked), coqBool(obs.Failed), coqBytesList(obs.Want), coqBytesList(obs.GotL))
 		}
 		sh := map[string]int{"doc": 0, "bignum": 1, "html": 2, "first": 3}[in.Shape]
 		return fmt.Sprintf("CRoundTrip %d %d %s %s", f, sh, coqBool(obs.Panicked), coqBool(obs.OK))
@@ -1541,7 +1597,33 @@ func (c15) Category(inAny any, obsAny any) (string, bool) {
 			in.Src != "nil" && (len(content) > 0 || len(in.Steps) > 0)
 	case "discard":
 		return "discard", true
+	case "hist":
+		sig := ""
+		for i, c := range in.Calls {
+			op := "C"
+			if c.Kind == "produce" {
+				op = "P"
+			}
+			if i < len(obs.Imm) && (obs.Imm[i].Err != "" || obs.Imm[i].Panicked) {
+				op += "!"
+			}
+			sig += op
+		}
+		return fmt.Sprintf("hist/%s/%s", in.Codec, sig), true
 	default:
+		if in.Shape == "names" || in.Shape == "xtree" {
+			switch {
+			case obs.Failed:
+				out = "err"
+			case !reflect.DeepEqual(obs.Want, obs.GotL):
+				out = "differs"
+			}
+			void := "other-names"
+			if c15HasVoidName(in) {
+				void = "html-void-name"
+			}
+			return fmt.Sprintf("rt/%s/%s/%s/%s", in.Codec, in.Shape, void, out), true
+		}
 		if in.Shape == "slots" {
 			switch {
 			case obs.Failed:
@@ -1733,73 +1815,95 @@ func c15Codec(r *rand.Rand) string {
 	return "text"
 }
 
+func c15GenConsume(r *rand.Rand, codec string, maxLen int) c15In {
+	in := c15In{Kind: "consume", Codec: codec, CloseOpt: r.Intn(2) == 0, Closable: r.Intn(3) != 0}
+	if in.Codec == "text" {
+		in.CloseOpt = false // the text codec has no such option
+	}
+	in.Dest = c15Dests[r.Intn(len(c15Dests))]
+	if r.Intn(3) == 0 { // the supported kinds more often
+		in.Dest = []string{"ptr_string", "ptr_bytes", "buffer", "writer", "binunm", "textunm", "any_string", "any_bytes", "ptr_named_string"}[r.Intn(9)]
+	}
+	content := c15Content(r)
+	if maxLen > 0 && len(content) > maxLen {
+		content = content[:maxLen]
+	}
+	in.Steps, in.Script = c15Script(r, content)
+	if r.Intn(3) == 0 {
+		in.Pre = Bs(c15Word(r))
+	}
+	if in.Dest == "writer" {
+		in.WSteps, _ = c15WScript(r, len(content))
+		if r.Intn(3) == 0 {
+			in.WPre = Bs(c15Word(r))
+		}
+	}
+	if (in.Dest == "binunm" || in.Dest == "textunm") && r.Intn(4) == 0 {
+		in.Ret = 2 + r.Intn(5)
+	}
+	if r.Intn(40) == 0 {
+		in.NilStrm, in.Steps, in.Script = true, nil, ""
+	}
+	return in
+}
+
+func c15GenProduce(r *rand.Rand, codec string, maxLen int) c15In {
+	in := c15In{Kind: "produce", Codec: codec, CloseOpt: r.Intn(2) == 0, Closable: r.Intn(3) != 0}
+	if in.Codec == "text" {
+		in.CloseOpt = false
+	}
+	in.Src = c15Srcs[r.Intn(len(c15Srcs))]
+	if r.Intn(3) == 0 {
+		in.Src = []string{"reader", "reader", "buffer", "bytes", "string", "binmar", "textmar", "writerto_rc"}[r.Intn(8)]
+	}
+	content := c15Content(r)
+	if maxLen > 0 && len(content) > maxLen {
+		content = content[:maxLen]
+	}
+	if in.Src == "error" || in.Src == "stringer" || in.Src == "struct" || in.Src == "ptr_struct" || in.Src == "strings" {
+		for len(content) > 300 {
+			content = content[:200]
+		}
+	}
+	var wlabel string
+	if in.Src == "reader" {
+		in.Steps, in.Script = c15Script(r, content)
+		in.PClos = r.Intn(2) == 0
+	} else {
+		in.Content = Bs(content)
+		in.Script = "direct"
+	}
+	in.WSteps, wlabel = c15WScript(r, len(content))
+	in.Script += "/" + wlabel
+	if r.Intn(4) == 0 {
+		in.WPre = Bs(c15Word(r))
+	}
+	if (in.Src == "binmar" || in.Src == "textmar") && r.Intn(4) == 0 {
+		in.Ret = 2 + r.Intn(5)
+	}
+	if r.Intn(40) == 0 {
+		in.NilStrm, in.WSteps, in.WPre = true, nil, ""
+	}
+	return in
+}
+
 func (c15) Gen(r *rand.Rand, tier string, i int) any {
-	k := r.Intn(22)
+	k := r.Intn(26)
 	switch {
+	case k >= 24:
+		return c15GenHist(r)
+	case k >= 22:
+		if r.Intn(4) == 0 {
+			t := c15GenXNode(r, 0)
+			return c15In{Kind: "rt", Codec: "xml", Shape: "xtree", Tree: &t}
+		}
+		return c15GenNames(r, []string{"xml", "xml", "json", "yaml"}[r.Intn(4)])
 	case k >= 20:
 		return c15GenSlots(r, []string{"json", "json", "json", "yaml", "yaml", "xml"}[r.Intn(6)])
 	case k < 10:
-		in := c15In{Kind: "consume", Codec: c15Codec(r), CloseOpt: r.Intn(2) == 0, Closable: r.Intn(3) != 0}
-		if in.Codec == "text" {
-			in.CloseOpt = false // the text codec has no such option
-		}
-		in.Dest = c15Dests[r.Intn(len(c15Dests))]
-		if r.Intn(3) == 0 { // the supported kinds more often
-			in.Dest = []string{"ptr_string", "ptr_bytes", "buffer", "writer", "binunm", "textunm", "any_string", "any_bytes", "ptr_named_string"}[r.Intn(9)]
-		}
-		content := c15Content(r)
-		in.Steps, in.Script = c15Script(r, content)
-		if r.Intn(3) == 0 {
-			in.Pre = Bs(c15Word(r))
-		}
-		if in.Dest == "writer" {
-			in.WSteps, _ = c15WScript(r, len(content))
-			if r.Intn(3) == 0 {
-				in.WPre = Bs(c15Word(r))
-			}
-		}
-		if (in.Dest == "binunm" || in.Dest == "textunm") && r.Intn(4) == 0 {
-			in.Ret = 2 + r.Intn(5)
-		}
-		if r.Intn(40) == 0 {
-			in.NilStrm, in.Steps, in.Script = true, nil, ""
-		}
-		return in
+		return c15GenConsume(r, c15Codec(r), 0)
 	case k < 18:
-		in := c15In{Kind: "produce", Codec: c15Codec(r), CloseOpt: r.Intn(2) == 0, Closable: r.Intn(3) != 0}
-		if in.Codec == "text" {
-			in.CloseOpt = false
-		}
-		in.Src = c15Srcs[r.Intn(len(c15Srcs))]
-		if r.Intn(3) == 0 {
-			in.Src = []string{"reader", "reader", "buffer", "bytes", "string", "binmar", "textmar", "writerto_rc"}[r.Intn(8)]
-		}
-		content := c15Content(r)
-		if in.Src == "error" || in.Src == "stringer" || in.Src == "struct" || in.Src == "ptr_struct" || in.Src == "strings" {
-			for len(content) > 300 {
-				content = content[:200]
-			}
-		}
-		var wlabel string
-		if in.Src == "reader" {
-			in.Steps, in.Script = c15Script(r, content)
-			in.PClos = r.Intn(2) == 0
-		} else {
-			in.Content = Bs(content)
-			in.Script = "direct"
-		}
-		in.WSteps, wlabel = c15WScript(r, len(content))
-		in.Script += "/" + wlabel
-		if r.Intn(4) == 0 {
-			in.WPre = Bs(c15Word(r))
-		}
-		if (in.Src == "binmar" || in.Src == "textmar") && r.Intn(4) == 0 {
-			in.Ret = 2 + r.Intn(5)
-		}
-		if r.Intn(40) == 0 {
-			in.NilStrm, in.WSteps, in.WPre = true, nil, ""
-		}
-		return in
+		return c15GenProduce(r, c15Codec(r), 0)
 	default:
 		codec := []string{"json", "xml", "yaml"}[r.Intn(3)]
 		shape := "doc"
@@ -1939,5 +2043,7 @@ func (c15) Enumerate(tier string) []any {
 			}
 		}
 	}
+	out = append(out, c15EnumNames()...)
+	out = append(out, c15EnumHist()...)
 	return out
 }
